@@ -230,6 +230,11 @@ def oracle_listing_on_file(p, text, case=None):
 
     lists = {"base-pair": bi.basePairs, "stacking": bi.stackings, "base-ribose": bi.baseRiboseInteractions,
              "base-phosphate": bi.basePhosphateInteractions, "other": bi.otherInteractions}
+    for cat, lst in lists.items():
+        for it in lst:
+            if it.nt1 is None or it.nt2 is None:
+                # an interaction without one of its residues is no interaction of the listing at all
+                return [D(f"C19:listing:interaction-without-residue", f"a {cat} entry has nt1={it.nt1!r} nt2={it.nt2!r} for {text[:200]!r}")]
     got_lists = {cat: [(ident(it.nt1), ident(it.nt2), cls_of(cat, it), it.nt1.label is None and it.nt2.label is None) for it in lst]
                  for cat, lst in lists.items()}
     return out + match_listing("listing", exp, n, got_lists, text)
@@ -473,8 +478,17 @@ def st_listing():
             return "# " + draw(st.text(alphabet="abc |\t", max_size=10))
         return draw(st.text(alphabet="ab|1 \tcW", max_size=25))
 
-    return st.tuples(st.lists(line(), min_size=0, max_size=12), st.sampled_from(["\n", "\n", "\r\n"]), st.booleans()).map(
-        lambda t: {"kind": "listing", "text": t[1].join(t[0]) + (t[1] if t[2] else "")})
+    def assemble(t):
+        lines, sep, final, repeat = list(t[0]), t[1], t[2], t[3]
+        # FR3D groups its lines by the first nucleotide: a drawn line may take over the first column of the line before
+        # it, well-formed or not (state carried from one line to the next would show here and nowhere else)
+        for i in range(len(lines) - 1):
+            if repeat[i] and "\t" in lines[i] and "\t" in lines[i + 1]:
+                lines[i + 1] = lines[i].split("\t")[0] + "\t" + lines[i + 1].split("\t", 1)[1]
+        return {"kind": "listing", "text": sep.join(lines) + (sep if final else "")}
+
+    return st.tuples(st.lists(line(), min_size=0, max_size=12), st.sampled_from(["\n", "\n", "\r\n"]), st.booleans(),
+                     st.lists(st.sampled_from([False, False, True]), min_size=12, max_size=12)).map(assemble)
 
 
 def classify_listing(case):
